@@ -117,6 +117,20 @@ def cfg_census(repo):
     return occ
 
 
+def cfg_names(pred):
+    """the configuration names a cfg predicate depends on (for cfg_attr: its condition, i.e. the first argument)"""
+    body = pred[pred.index("(") + 1:-1] if "(" in pred else pred
+    if pred.startswith("cfg_attr"):
+        depth = 0
+        for i, c in enumerate(body):
+            depth += c == "("
+            depth -= c == ")"
+            if c == "," and depth == 0:
+                body = body[:i]
+                break
+    return set(re.findall(r"[A-Za-z_]\w*", body)) - {"not", "all", "any", "true", "false"}
+
+
 def _extract_one(fs):
     try:
         d, info = extract.extract(features=fs)
@@ -277,7 +291,7 @@ def main(tier):
             n_feature += 1
         # what a feature gate does to the compiled program is decided by the per-module comparison above, wherever the
         # gate is written; the census only rules out predicates that are not about the five features at all
-        names = set(re.findall(r'(\w+)\s*=', pred)) | set(re.findall(r'\b(debug_assertions|overflow_checks|test|unix|windows|target_\w+|panic)\b', pred))
+        names = cfg_names(pred)
         run.ob(names <= {"feature"}, "cfg|%s|%s" % (rel, pred[:60]),
                "C17 conditional compilation depends on the evaluator features only (not on profile, target or other cfgs)", "%s:%d" % (rel, line), pred[:200], distinct="cfg|%s" % rel)
     run.floor("cfg(feature) occurrences found", n_feature, 5)
